@@ -77,20 +77,7 @@ def cases(tier, seed):
         rec([], SUB6, 4)
         out = tmp + [c for c in more if tuple(c["history"]) not in seen]
     else:
-        rec([], ALPHABET, 4)
-        seen = {tuple(c["history"]) for c in out}
-        extra = []
-
-        def rec5(hist):
-            if len(hist) == 5:
-                if tuple(hist) not in seen:
-                    extra.append({"history": list(hist), "key": key_of(["C16", list(hist)])})
-                return
-            for op in SUB6:
-                if enabled(hist, op):
-                    rec5(hist + [op])
-        rec5([])
-        out += extra
+        rec([], ALPHABET, 5)
     return out
 
 
@@ -240,7 +227,7 @@ def execute(cases_, tier, seed):
     res.evaluations = len(cases_)
     res.extra.update({"histories": len(cases_), "commutation_checks": n_comm, "max_depth": max(len(c["history"]) for c in cases_)})
     res.samples = [c["history"] for c in cases_[:: max(1, len(cases_) // 5)]][:5]
-    res.bound = "tier=%s: all histories over the 12-op alphabet to depth %s" % (tier, "3 (and depth 4 over the 6-op sub-alphabet)" if tier == "quick" else "4, and depth 5 over the 6-op sub-alphabet")
+    res.bound = "tier=%s: all histories over the 12-op alphabet to depth %s" % (tier, "3 (and depth 4 over the 6-op sub-alphabet)" if tier == "quick" else "5")
     res.assumptions = ["histories are not extended past an op that returns Err (documented: the space is unspecified after an error)"]
     if len(cases_) > 50 and (len(canon_states) < 30 or n_comm < 10):
         raise MachineryError("vacuity guard: states=%d commutation checks=%d" % (len(canon_states), n_comm))
